@@ -48,14 +48,6 @@ def gen(repo):
         raise TranslateError("frameResponse: interim range differs from determineFraming's")
     if not re.search(r'method\s*==\s*"CONNECT"', df):
         raise TranslateError("determineFraming: CONNECT guard missing")
-    cfg = re.search(r"maxResponseBytes\(([^)]*)\)", c)
-    if not cfg:
-        raise TranslateError("Config(): maxResponseBytes default not found")
-    max_resp = cxxscan.const_eval(cfg.group(1))
-    jm = re.search(r"std::size_t\s+maxPayloadSize\s*=\s*([^;]+);", c)
-    if not jm:
-        raise TranslateError("JsonConfig::maxPayloadSize default not found")
-    json_max = cxxscan.const_eval(jm.group(1))
 
     # ---------------------------------------------------------------- server
     def sconst(name):
@@ -88,6 +80,10 @@ def gen(repo):
     for stmt in re.split(r"[;{}]", loop):
         st = re.sub(r"\s+", " ", stmt).strip()
         if st and idents.search(st):
+            # what is handed to the pool is `requestData`; further captures / arguments of the dispatch lambda (e.g. a restart
+            # epoch) do not concern the framing and are normalised away
+            st = re.sub(r"\[this, sid, requestData(?:, \w+)*\]", "[this, sid, requestData]", st)
+            st = re.sub(r"processHttpRequest\(sid, requestData(?:, \w+)*\)", "processHttpRequest(sid, requestData)", st)
             loop_skel.append(st)
     if len(loop_skel) < 8 or not any("find(" in x for x in loop_skel):
         raise TranslateError("handleIncomingData: extraction loop has an unexpected shape: %r" % loop_skel[:4])
@@ -130,6 +126,99 @@ def gen(repo):
     number_parsers = [("server Content-Length", srv_cl), ("client parseFullUInt", cli_num), ("client parseContentLength", cli_cl),
                       ("client chunk size", cli_chunk), ("server chunk size", srv_chunk)]
 
+    # ---- the I/O thread's terminal closes (FC15b): every close `handleIncomingData` performs must forget the session first.
+    # Skeleton = the close calls of handleIncomingData in source order + the statements of `rejectSession` that touch the
+    # session map or close; Props/C15.lean pins it (`gen_io_close`): with a plain `closeSession(sid)` on any of these paths the
+    # session outlives the request for a close, later reads are appended behind a buffer with a hole, and the model's
+    # `alive := false` is not what the code does.
+    io_calls = re.findall(r"\b(closeSession|rejectSession|_transport->close)\s*\(\s*sid\s*\)", hid)
+    if not io_calls:
+        raise TranslateError("handleIncomingData: no close call found")
+    try:
+        rej = cxxscan.function_body(s, "rejectSession")
+    except Exception:
+        rej = None
+    rej_skel = []
+    if rej is not None:
+        for stmt in re.split(r"[;{}]", rej):
+            st = re.sub(r"\s+", " ", stmt).strip()
+            if st and re.search(r"\b(_sessionInfo|closeSession|_sessionMutex|_transport)\b", st):
+                rej_skel.append(st)
+    io_close = [("handleIncomingData", io_calls), ("rejectSession", rej_skel)]
+
+    # ---- case folding of field names / transfer codings in handleIncomingData (FC15c): the model folds ASCII only
+    folds = re.findall(r"std::transform\(\s*(\w+)\.begin\(\)\s*,\s*\1\.end\(\)\s*,\s*\1\.begin\(\)\s*,\s*([^)]+?)\s*\)", hid)
+    if len(folds) < 2:
+        raise TranslateError("handleIncomingData: expected std::transform(x.begin(), x.end(), x.begin(), <fold>) for key and value")
+    fold_fns = sorted(set(f for _, f in folds))
+    if fold_fns == ["asciiLower"]:
+        al = cxxscan.function_body(s, "asciiLower")
+        al_n = re.sub(r"\s+", " ", al).strip()
+        if al_n != "return (c >= 'A' && c <= 'Z') ? static_cast<char>(c - 'A' + 'a') : c;":
+            raise TranslateError("asciiLower: unexpected body %r" % al_n)
+        case_fold = "ascii"
+    elif fold_fns == ["::tolower"]:
+        case_fold = "ctype tolower applied to plain char"        # undefined for bytes >= 0x80 (signed char), locale dependent
+    else:
+        raise TranslateError("handleIncomingData: unrecognised case folding %r" % fold_fns)
+
+    # ---- the worker pool's queue capacity (what `tryEnqueue` refuses beyond): HttpServer's ThreadPool constructor call +
+    # ThreadPool's default; the driver's `sv hold k` arithmetic uses it and a lockstep case fills the queue to this size
+    tp = re.search(r"_threadPool\(([^)]*(?:\([^)]*\)[^)]*)*)\)", s)
+    if not tp:
+        raise TranslateError("HttpServer: _threadPool(...) constructor call not found")
+    tp_args = [a.strip() for a in re.split(r",(?![^()]*\))", tp.group(1)) if a.strip()]
+    tpsrc = read(repo, "include/iora/core/thread_pool.hpp")
+    if len(tp_args) >= 4:
+        pool_queue = cxxscan.const_eval(tp_args[3])
+    else:
+        dq = re.search(r"std::size_t\s+maxQueueSize\s*=\s*([^,)]+)", tpsrc)
+        if not dq:
+            raise TranslateError("ThreadPool: default maxQueueSize not found")
+        pool_queue = cxxscan.const_eval(dq.group(1))
+    te_src = cxxscan.function_body(tpsrc, "tryEnqueueImpl")
+    if not re.search(r"_tasks\.size\(\)\s*>=\s*_maxQueueSize", te_src):
+        raise TranslateError("ThreadPool::tryEnqueueImpl: refusal test is not `_tasks.size() >= _maxQueueSize`")
+
+    # ---- the 503 path of handleIncomingData and what the completion of sendErrorResponse does to the session
+    if not re.search(r"if\s*\(\s*!_threadPool\.tryEnqueue\(", hid) or not re.search(r"sendErrorResponse\(\s*sid\s*,\s*503\b", hid):
+        raise TranslateError("handleIncomingData: `if (!_threadPool.tryEnqueue(...)) sendErrorResponse(sid, 503, ...)` not found")
+    ser = cxxscan.function_body(s, "sendErrorResponse")
+    if not re.search(r"_transport->close\(session\);.*_sessionInfo\.erase\(session\);", ser, re.S):
+        raise TranslateError("sendErrorResponse: completion is not `_transport->close(session); ... _sessionInfo.erase(session);`")
+
+    # ---- req.params: the query conversion of processHttpRequest
+    phr = None
+    for nth in range(4):            # (an overload that only forwards may precede the real definition)
+        try:
+            cand = cxxscan.function_body(s, "processHttpRequest", nth=nth)
+        except Exception:
+            break
+        if "queryPos" in cand:
+            phr = cand
+            break
+    if phr is None:
+        raise TranslateError("processHttpRequest: no definition with the query conversion (`queryPos`) found")
+    qs = []
+    mq = re.search(r"auto\s+queryPos\s*=\s*req\.path\.find\('\?'\)\s*;", phr)
+    if not mq:
+        raise TranslateError("processHttpRequest: `auto queryPos = req.path.find('?')` not found")
+    qb = phr[mq.start():]
+    qb = qb[:cxxscan.match_brace(qb, qb.index("{")) + 1]
+    for stmt in re.split(r"[;{}]", qb):
+        st = re.sub(r"\s+", " ", stmt).strip()
+        if st and re.search(r"\b(queryPos|queryString|param|eqPos|key|value)\b", st):
+            qs.append(st)
+
+    # ---- client: how parseHeaderBlock stores a field line (assign = last line wins; which fields combine)
+    store = []
+    for stmt in re.split(r"[;{}]", phb):
+        st = re.sub(r"\s+", " ", stmt).strip()
+        if st and re.search(r"\bresp\.headers\b|\bprevConnection\b", st):
+            store.append(st)
+    if not store:
+        raise TranslateError("parseHeaderBlock: no statement stores into resp.headers")
+
     # ---------------------------------------------------------------- message parser
     mt = re.search(r"static\s+constexpr\s+std::size_t\s+MAX_REQUEST_TARGET_SIZE\s*=\s*([^;]+);", m)
     if not mt:
@@ -153,6 +242,12 @@ def gen(repo):
     if not lv:
         raise TranslateError("isListValuedHeader: kListValued not found")
     list_valued = re.findall(r'"([^"]+)"', lv.group(1))
+    # whitespace between field name and colon (RFC 9112 5.1, FC15d): the header loop of fromWireFormat throws 400 before it trims
+    fwf = cxxscan.function_body(m, "fromWireFormat")
+    ws_colon = bool(re.search(r"if\s*\(\s*colonPos\s*>\s*0\s*&&\s*\(\s*line\[colonPos\s*-\s*1\]\s*==\s*' '\s*\|\|\s*line\[colonPos\s*-\s*1\]\s*==\s*'\\t'\s*\)\s*\)\s*"
+                              r"\{\s*throw\s+HttpRequestError\(\s*400\b", fwf))
+    if not re.search(r"const\s+auto\s+colonPos\s*=\s*line\.find\(':'\)", fwf):
+        raise TranslateError("fromWireFormat: `const auto colonPos = line.find(':')` not found")
     fw = cxxscan.function_body(m, "fromWireFormat") + cxxscan.function_body(m, "parseRequestLine") + pm
     statuses = sorted(set(int(x) for x in re.findall(r"HttpRequestError\(\s*(\d+)\s*,", fw)))
 
@@ -163,8 +258,8 @@ def gen(repo):
     t += "/-- accepted `HTTP/` versions in `parseHeaderBlock` -/\ndef clientVersions : List String := %s\n" % _lean_str_list(versions)
     t += "/-- statuses without a body in `determineFraming` rule 1 (besides the interim range) -/\ndef clientNoBodyStatuses : List Nat := %s\n" % lean_nat_list(nobody)
     t += "/-- interim range `sc >= lo && sc < hi` (determineFraming and frameResponse agree) -/\ndef clientInterimLo : Nat := %d\ndef clientInterimHi : Nat := %d\n" % (lo, hi)
-    t += "/-- `Config` defaults: maxResponseBytes, jsonConfig.maxPayloadSize (effectiveCap = max of the two) -/\n"
-    t += "def clientDefaultMaxResponseBytes : Nat := %d\ndef clientDefaultJsonMaxPayload : Nat := %d\n" % (max_resp, json_max)
+    t += "/-- `parseHeaderBlock`: the statements that store a field line into `resp.headers`, in source order -/\n"
+    t += "def clientHeaderStore : List String := %s\n" % _lean_str_list(store)
     t += "/-- `HttpServer::SessionInfo` limits -/\ndef serverMaxBufferSize : Nat := %d\ndef serverMaxHeaderSize : Nat := %d\ndef serverMaxBodySize : Nat := %d\n" % (max_buf, max_hdr, max_body)
     t += "/-- `handleIncomingData`: the statements of the pipelining loop that mention the working buffer `dataStr` or an offset\n"
     t += "derived from it, in source order (what every offset is relative to) -/\n"
@@ -172,10 +267,20 @@ def gen(repo):
     t += "/-- the length conversions of both endpoints: per parser, the statements that mention the converted value, the accumulator,\n"
     t += "the conversion call, its overflow handling and the comparison with the cap, in source order -/\n"
     t += "def numberParsers : List (String × List String) := [%s]\n" % ",\n  ".join('("%s", %s)' % (k, _lean_str_list(v)) for k, v in number_parsers)
+    t += "/-- the terminal closes of the I/O thread: close calls of `handleIncomingData` in source order, and the statements of\n"
+    t += "`rejectSession` that touch the session map / close -/\n"
+    t += "def serverIoClose : List (String × List String) := [%s]\n" % ", ".join('("%s", %s)' % (k, _lean_str_list(v)) for k, v in io_close)
+    t += "/-- how `handleIncomingData` folds case in field names and transfer codings -/\ndef serverCaseFold : String := \"%s\"\n" % case_fold
+    t += "/-- capacity of the worker pool's task queue (`tryEnqueue` refuses at `_tasks.size() >= _maxQueueSize`) -/\n"
+    t += "def serverPoolQueueSize : Nat := %d\n" % pool_queue
+    t += "/-- `processHttpRequest`: the statements of the query-string conversion, in source order -/\n"
+    t += "def serverQueryParams : List String := %s\n" % _lean_str_list(qs)
     t += "/-- `HttpRequest::MAX_REQUEST_TARGET_SIZE` -/\ndef maxRequestTargetSize : Nat := %d\n" % max_target
     t += "/-- `parseMethod` table; index = `enum class HttpMethod` value -/\ndef methods : List String := %s\n" % _lean_str_list(by_value)
     t += "/-- `kTcharPunct` of `isHttpToken` -/\ndef tcharPunct : String := \"%s\"\n" % tc.group(1)
     t += "/-- `detail::isListValuedHeader` allow-list -/\ndef listValuedHeaders : List String := %s\n" % _lean_str_list(list_valued)
+    t += "/-- `fromWireFormat` answers 400 to whitespace between a field name and the colon (before trimming the name) -/\n"
+    t += "def requestRejectsWsBeforeColon : Bool := %s\n" % ("true" if ws_colon else "false")
     t += "/-- statuses thrown by the request parser (`HttpRequestError(status, …)`), sorted -/\ndef requestErrorStatuses : List Nat := %s\n" % lean_nat_list(statuses)
     t += "end Iora.Gen.Http\n"
     return "IoraModel/Gen/Http.lean", t
